@@ -21,6 +21,24 @@ pub mod net_mirror {
             ensures r matches Ok(v) ==> (forall|i: int| 0 <= i < v@.len() ==> #[trigger] self.resolves_to(v@[i])),
         { unimplemented!() }
     }
+    impl Url {
+        /// the host of the URL when it is a domain name
+        pub uninterp spec fn dom(&self) -> Option<Seq<char>>;
+        #[verifier::external_body]
+        pub fn domain(&self) -> (r: Option<&str>) ensures r is Some == self.dom() is Some, r matches Some(d) ==> d@ == self.dom()->0 { unimplemented!() }
+    }
+    /// `native_tls::TlsConnector` (opaque)
+    pub mod native_tls {
+        use vstd::prelude::*;
+        use super::super::NativeTlsErrorOpaque;
+        #[verifier::external_body]
+        pub struct TlsConnector { _p: u8 }
+        impl TlsConnector {
+            #[verifier::external_body]
+            pub fn new() -> (r: core::result::Result<TlsConnector, NativeTlsErrorOpaque>) { unimplemented!() }
+        }
+        impl Clone for TlsConnector { #[verifier::external_body] fn clone(&self) -> (r: Self) ensures r == *self { unimplemented!() } }
+    }
     /// `std::vec::IntoIter<T>`: the elements not yet yielded, in order
     #[verifier::external_body]
     #[verifier::reject_recursive_types(T)]
@@ -36,4 +54,4 @@ pub mod net_mirror {
     #[verifier::external_body]
     pub fn vec_into_iter<T>(v: Vec<T>) -> (r: VecIntoIter<T>) ensures r.rest() == v@ { unimplemented!() }
 }
-pub use net_mirror::{SocketAddr, TcpStream, VecIntoIter, vec_into_iter};
+pub use net_mirror::{SocketAddr, TcpStream, VecIntoIter, vec_into_iter, native_tls};
